@@ -32,6 +32,10 @@ func (e *kvElection) logWithContext(ctx context.Context) []zap.Field {
 	}
 
 	// Add correlation ID if present in context
+	if ctx == nil {
+		// StopWithContext clears the election context; goroutines still winding down log with it
+		return fields
+	}
 	if correlationID := ctx.Value("correlation_id"); correlationID != nil {
 		fields = append(fields, zap.String("correlation_id", correlationID.(string)))
 	}
